@@ -3,6 +3,20 @@ pkg = test package under harness/, level = evidence level, jobs[tier] = list of
 {part, shards, checks (rapid cases per shard), journal, timeout, scale}."""
 
 CHECKS = {
+    'C18': dict(pkg='c18', level='exploration',
+        technique='stateful property-based testing of the HTTP bridge: rapid-generated concurrent HTTP requests driven in-process (Bridge.ServeHTTP with httptest recorders) inside a testing/synctest bubble with gated handlers and generated release orders; oracle = per-request expectation from the reference classifier (status, body shape, multiset of response objects with the caller id text and the token of the invocation that saw this caller params) plus the handler log',
+        level_text='Several HTTP callers overlap for as long as the script wants on one bridge, using identical and exotic ids; each caller must get exactly the responses to its own calls with its own id texts (nonces in the params make cross-talk visible), 200 with an object for one response / an array otherwise, 204 with an empty body for notification-only bodies, error objects for statically invalid members without running a handler, 405 / 415 / an error status for refused requests, and every valid request must run its handler exactly once. Exploration.',
+        level_note='Trusts harness/c18 and refrpc; charset=UTF-8 in upper case, empty-array bodies, members without a method and ids duplicated within one body are dont-care. Reader-site hook delays are off in this world (see DESIGN: mutex waits are not durable blocks).',
+        jobs=dict(
+        quick=[dict(part='scenarios', shards=4, checks=1500, journal=True)],
+        thorough=[dict(part='scenarios', shards=14, checks=30000, journal=True, timeout=3000)])),
+    'C17': dict(pkg='c17', level='exploration',
+        technique='differential testing of dispatch against a reference resolver written from the documentation: all method names up to length 4 over a 6-symbol alphabet enumerated against fixed assigner trees, rapid-generated trees and names beyond; each name is dispatched through a real Server and through Assign directly, with a recording assigner and identity-tagged handlers',
+        level_text='Each name is sent as a call through a real server (and given to Assign directly); the handler that ran (identity tag in the result), the names handed to a recording assigner, the InboundRequest/ServerFromContext values seen by assigner and handler, Names() and the rpc.serverInfo reply are compared with a reference resolver (whole name for Map, first-dot split for ServiceMap, rpc. prefix withheld unless DisableBuiltin). Exhaustive for short names on the fixed trees; exploration beyond.',
+        level_note='Trusts the reference resolver in harness/c17; names are valid UTF-8 non-empty strings when sent through the server (the empty name is only given to Assign).',
+        jobs=dict(
+        quick=[dict(part='shortnames', shards=4), dict(part='random', shards=3, checks=1500)],
+        thorough=[dict(part='shortnames', shards=4), dict(part='random', shards=12, checks=40000, timeout=3000)])),
     'C16': dict(pkg='c16', level='exploration',
         technique='differential property testing over generated programs: positional functions built with reflect.FuncOf/MakeFunc from the C15 type grammar with generated name lists, params around the arity boundary; oracle = element-wise encoding/json independent of the synthetic-struct implementation; overlapping calls of one handler with tagged arguments; Args/Obj against element-wise json.Unmarshal with prior-value comparison',
         level_text='Positional handlers of arity 0-6 must accept exactly arrays of n elements (element i into Xi, null allowed) or objects over the given names, call the function once with those values and otherwise report InvalidParams without calling it; overlapping calls must each see their own arguments; Args decodes/encodes position by position with exact length and skips nil slots, Obj touches only the targets whose keys are present. Exploration.',
